@@ -75,7 +75,16 @@ class P(core.Prop):
         exc = None
         saved = eps.TCP4ClientEndpoint
         try:
-            if route == 'socksep':
+            if route.startswith('resolve'):
+                # the public functions behind Tor.dns_resolve / Tor.dns_resolve_ptr, name given as text or bytes
+                fn = socks.resolve_ptr if route.startswith('resolveptr') else socks.resolve
+                name = case['host'].encode('utf-8') if route.endswith('-bytes') else case['host']
+                failed = []
+                fn(FakeSocksPort(), name).addErrback(lambda f: failed.append(type(f.value).__name__))
+                if failed and not trs:
+                    exc = failed[0]
+                ep = None
+            elif route == 'socksep':
                 ep = socks.TorSocksEndpoint(FakeSocksPort(), case['host'], case['port'])
             elif route == 'socksep-tls':
                 ep = socks.TorSocksEndpoint(FakeSocksPort(), case['host'], case['port'], tls=True)
@@ -92,13 +101,19 @@ class P(core.Prop):
                 from txtorcon.web import _AgentEndpointFactoryUsingTor
                 f = _AgentEndpointFactoryUsingTor(object(), FakeSocksPort(), None)
                 ep = f.endpointForURI(URI.fromBytes(('http://%s:%d/x' % (case['host'], case['port'])).encode('ascii')))
-            d = ep.connect(fac)
-            d.addErrback(lambda f: None)
+            if ep is not None:
+                d = ep.connect(fac)
+                d.addErrback(lambda f: None)
         except Exception as e:
             exc = type(e).__name__
         finally:
             eps.TCP4ClientEndpoint = saved
         if not trs:
+            if route.startswith('resolve') and not ''.join(case['chunks']).startswith('0500'):
+                # refused before connecting; with this server answer no request was due anyway, so there is
+                # nothing to tell apart from the machine, which would have refused only when about to send
+                # - observe the machine itself on this case
+                return self.run_impl({k: v for k, v in case.items() if k != 'route'})
             return {'greet': '050100', 'wrote': '', 'exc': exc or 'noconnect'}
         tr, proto = trs[0]
         greet = tr.value()
@@ -217,6 +232,10 @@ class P(core.Prop):
                 c['route'] = rng.choice(routes)
                 if c['route'].endswith('-tls') and not host.endswith('.') and rng.random() < 0.5:
                     c['host'] = host + '.'
+            if ty in ('RESOLVE', 'RESOLVE_PTR') and rng.random() < 0.3:
+                # through socks.resolve() / socks.resolve_ptr() (they always ask for port 0)
+                c['port'] = 0
+                c['route'] = ('resolve-fn' if ty == 'RESOLVE' else 'resolveptr-fn') + rng.choice(['', '-bytes'])
             if ty == 'CONNECT' and 0 <= port < 65536 and 'route' not in c and rng.random() < 0.12:
                 # a well-formed DNS name, with and without the root dot, through the TLS-wrapping entry points
                 labs = [''.join(rng.choice('abcxyz0123456789') for _ in range(rng.choice([1, 3, 8, 20])))
